@@ -20,9 +20,16 @@ import (
 	spb "google.golang.org/genproto/googleapis/rpc/status"
 )
 
+// responseHandler is the registration of one call. gone is closed when the
+// call stops reading ch, before it unregisters.
+type responseHandler struct {
+	ch   chan *goatorepo.Rpc
+	gone chan struct{}
+}
+
 type RpcMultiplexer struct {
 	rw       types.RpcReadWriter
-	handlers map[uint64]chan *goatorepo.Rpc
+	handlers map[uint64]responseHandler
 
 	ctx    context.Context
 	cancel context.CancelFunc
@@ -37,7 +44,7 @@ type RpcMultiplexer struct {
 func NewRpcMultiplexer(rw types.RpcReadWriter) *RpcMultiplexer {
 	rm := &RpcMultiplexer{
 		rw:       rw,
-		handlers: make(map[uint64]chan *goatorepo.Rpc),
+		handlers: make(map[uint64]responseHandler),
 		codec:    encoding.GetCodecV2(proto.Name),
 	}
 
@@ -64,8 +71,8 @@ func (rm *RpcMultiplexer) closeError(err error) {
 
 	if err != nil {
 		rm.rErr = err
-		for id, ch := range rm.handlers {
-			close(ch)
+		for id, h := range rm.handlers {
+			close(h.ch)
 			delete(rm.handlers, id)
 		}
 	}
@@ -87,8 +94,8 @@ func (rm *RpcMultiplexer) CallUnaryMethod(
 
 	respChan := make(chan *goatorepo.Rpc, 1)
 
-	rm.registerHandler(streamId, respChan)
-	defer rm.unregisterHandler(streamId)
+	gone := rm.registerHandler(streamId, respChan)
+	defer rm.unregisterHandler(streamId, gone)
 
 	rpc := goatorepo.Rpc{
 		Id:     streamId,
@@ -148,10 +155,11 @@ func (rm *RpcMultiplexer) NewStreamReadWriter(
 	streamId := atomic.AddUint64(&rm.streamCounter, 1)
 
 	respChan := make(chan *goatorepo.Rpc, 1)
-	rm.registerHandler(streamId, respChan)
+	gone := rm.registerHandler(streamId, respChan)
 
+	var once sync.Once
 	teardown := func() {
-		rm.unregisterHandler(streamId)
+		once.Do(func() { rm.unregisterHandler(streamId, gone) })
 	}
 
 	rw := internal.NewFnReadWriter(
@@ -199,28 +207,41 @@ func (rm *RpcMultiplexer) handleResponse(rpc *goatorepo.Rpc) {
 	rm.mutex.Lock()
 	defer rm.mutex.Unlock()
 
-	ch, ok := rm.handlers[rpc.GetId()]
+	h, ok := rm.handlers[rpc.GetId()]
 	if !ok {
 		// TODO: getting log lines from here after cancelling streams
 		log.Error().Msgf("Mux: unhandled Rpc %d", rpc.GetId())
 		return
 	}
-	ch <- rpc
+	select {
+	case h.ch <- rpc:
+	case <-h.gone:
+		// The call has stopped reading and is waiting for the mutex we hold in
+		// order to unregister: drop the Rpc instead of deadlocking the connection.
+	}
 }
 
-func (rm *RpcMultiplexer) registerHandler(id uint64, c chan *goatorepo.Rpc) {
+func (rm *RpcMultiplexer) registerHandler(id uint64, c chan *goatorepo.Rpc) chan struct{} {
 	rm.mutex.Lock()
 	defer rm.mutex.Unlock()
 
-	rm.handlers[id] = c
+	gone := make(chan struct{})
+	rm.handlers[id] = responseHandler{ch: c, gone: gone}
+	return gone
 }
 
-func (rm *RpcMultiplexer) unregisterHandler(id uint64) {
+// unregisterHandler must be called exactly once per registration, by the call
+// that registered, once it no longer reads its channel.
+func (rm *RpcMultiplexer) unregisterHandler(id uint64, gone chan struct{}) {
+	// Release a dispatch that is blocked on our full channel while holding the
+	// mutex, before we queue up for that mutex ourselves.
+	close(gone)
+
 	rm.mutex.Lock()
 	defer rm.mutex.Unlock()
 
-	if ch, ok := rm.handlers[id]; ok {
-		close(ch)
+	if h, ok := rm.handlers[id]; ok {
+		close(h.ch)
 	}
 
 	delete(rm.handlers, id)
